@@ -1339,6 +1339,12 @@ func stateInlineComment(s *Scanner, c byte) state {
 }
 
 func stateMultiLineComment(s *Scanner, c byte) state {
+	if bytes.IsNewLine(c) && s.annotation == annotationNone {
+		// The comment goes on, but the line ends here like everywhere else: the
+		// nodes in front of the comment don't stand on the line it is closed on.
+		s.found(lexeme.NewLine)
+		return scanContinue
+	}
 	if (s.index + 1) < s.dataSize {
 		if c == '#' && s.data[s.index] == '#' && s.data[s.index+1] == '#' {
 			s.index++ // skip second #
